@@ -1,19 +1,21 @@
-(* strconv.AppendInt(_, i, 10) / AppendUint: decimal printing, modelled (not an oracle). *)
-From Coq Require Import List ZArith NArith Bool Lia.
+(* strconv.AppendInt(_, i, 10) / AppendUint: decimal printing, modelled (not an
+   oracle) through the standard library's binary-to-decimal conversion N.to_uint,
+   whose round trip and normalisation (no leading zero) are proved in
+   Coq.Numbers.DecimalN / DecimalFacts. *)
+From Coq Require Import List ZArith NArith Bool Lia Decimal.
 From Coq.Strings Require Import Byte.
 Import ListNotations.
 From Zap Require Import Base.Wire Enc.Bytes.
 
-Definition digit (n : N) : byte := hexdigit n.   (* n < 10 *)
-
-(* digits of a positive number, most significant first; fuel = number of binary digits + 1 suffices *)
-Fixpoint digits_fuel (fuel : nat) (n : N) (acc : bytes) : bytes :=
-  match fuel with
-  | O => acc
-  | S f => if (n <? 10)%N then digit n :: acc
-           else digits_fuel f (n / 10)%N (digit (n mod 10)%N :: acc)
+Fixpoint uint_bytes (d : Decimal.uint) : bytes :=
+  match d with
+  | Nil => []
+  | D0 r => x30 :: uint_bytes r | D1 r => x31 :: uint_bytes r | D2 r => x32 :: uint_bytes r
+  | D3 r => x33 :: uint_bytes r | D4 r => x34 :: uint_bytes r | D5 r => x35 :: uint_bytes r
+  | D6 r => x36 :: uint_bytes r | D7 r => x37 :: uint_bytes r | D8 r => x38 :: uint_bytes r
+  | D9 r => x39 :: uint_bytes r
   end.
-Definition print_N (n : N) : bytes := digits_fuel (S (N.to_nat (N.size n))) n [].
+Definition print_N (n : N) : bytes := uint_bytes (N.to_uint n).
 Definition print_Z (z : Z) : bytes :=
   match z with
   | Z0 => [x30]
